@@ -260,14 +260,16 @@ pub fn rand_schema(rng: &mut Rng, o: &SchemaOpts) -> Schema {
 }
 
 // ---------------------------------------------------------------- documents
-pub struct DocOpts { pub max_depth: usize, pub max_tags: usize, pub big: bool, pub noncanon: bool, pub unk_prob: (u32, u32), pub widths: bool }
-impl Default for DocOpts { fn default() -> Self { DocOpts { max_depth: 6, max_tags: 40, big: false, noncanon: false, unk_prob: (0, 1), widths: false } } }
+pub struct DocOpts { pub max_depth: usize, pub max_tags: usize, pub big: bool, pub noncanon: bool, pub unk_prob: (u32, u32), pub widths: bool,
+    /// most size fields 8 bytes wide: with ids of 5-8 bytes the headers are 13-16 bytes long (the longest the format allows)
+    pub long_headers: bool }
+impl Default for DocOpts { fn default() -> Self { DocOpts { max_depth: 6, max_tags: 40, big: false, noncanon: false, unk_prob: (0, 1), widths: false, long_headers: false } } }
 
 fn gen_node(rng: &mut Rng, s: &Schema, e: &Entry, chain: &mut Vec<u64>, budget: &mut usize, o: &DocOpts) -> Node {
     *budget = budget.saturating_sub(1);
     if e.ty != TagDataType::Master {
         let (val, pad) = rand_val(rng, e.ty, o.big, o.noncanon);
-        return Node { id: e.id, val, kids: vec![], unk: false, width: if o.widths && rng.chance(1, 4) { rng.range(1, 8) } else { 0 }, pad };
+        return Node { id: e.id, val, kids: vec![], unk: false, width: if o.long_headers && rng.chance(2, 3) { 8 } else if o.widths && rng.chance(1, 4) { rng.range(1, 8) } else { 0 }, pad };
     }
     chain.push(e.id);
     let mut kids = Vec::new();
@@ -279,7 +281,7 @@ fn gen_node(rng: &mut Rng, s: &Schema, e: &Entry, chain: &mut Vec<u64>, budget: 
         }
     }
     chain.pop();
-    Node { id: e.id, val: Val::M, kids, unk: rng.chance(o.unk_prob.0, o.unk_prob.1), width: if o.widths && rng.chance(1, 4) { rng.range(1, 8) } else { 0 }, pad: 0 }
+    Node { id: e.id, val: Val::M, kids, unk: rng.chance(o.unk_prob.0, o.unk_prob.1), width: if o.long_headers && rng.chance(2, 3) { 8 } else if o.widths && rng.chance(1, 4) { rng.range(1, 8) } else { 0 }, pad: 0 }
 }
 /// a specification-conformant document: a sequence of root-level elements
 pub fn rand_doc(rng: &mut Rng, s: &Schema, o: &DocOpts) -> Vec<Node> {
